@@ -290,10 +290,16 @@ impl<'a> Gen<'a> {
         let target = self.rng.range(30, if self.tier == Tier::Quick { 140 } else { 200 }) as usize;
         // unusual-but-legal learned entries written by the engine itself
         if self.rng.pct(25) && cfgs[0].is_phonetic() {
-            let recipes: [&str; 6] = [":)", ":", "de:sh", ";)", "\"a\"", ":`"];
+            let recipes: [&str; 10] = [":)", ":", "de:sh", ";)", "\"a\"", ":`", "o`", "`", "a`", "=s"];
             let n = self.rng.range(1, 3);
             for _ in 0..n {
                 let t = if self.rng.pct(70) { self.rng.pick(&recipes).to_string() } else { self.text() };
+                // the same text committed once or several times in a row (each commit of a
+                // non-preselected index moves the learned choice, also to an empty candidate)
+                for _ in 0..self.rng.range(0, 2) {
+                    self.type_text(&mut ops, 0, &t, if valid_sel { Sel::Presel } else { Sel::Raw(0) });
+                    ops.push(Op::Commit { h: 0, idx: Idx::Rel(self.rng.next_u64() as u8) });
+                }
                 self.type_text(&mut ops, 0, &t, if valid_sel { Sel::Presel } else { Sel::Raw(0) });
                 ops.push(Op::Commit { h: 0, idx: if self.rng.coin() { Idx::Other(self.rng.next_u64() as u8) } else { Idx::Rel(255) } });
                 if self.rng.pct(30) {
@@ -723,6 +729,14 @@ impl<'a> Gen<'a> {
 
     /// One key of a fixed layout chosen by character class.
     fn fixed_class_key(&mut self, l: &LayoutInfo, reph_weight: u32) -> Op {
+        if self.rng.pct(4) && !l.numpad.is_empty() {
+            // a number-pad key (its value is only produced while the number-pad option is on);
+            // a small pool, so that the same key comes back before and after an update
+            let mut keys: Vec<u16> = l.numpad.keys().copied().collect();
+            keys.sort();
+            let k = keys[self.rng.usize(keys.len().min(4))];
+            return Op::Key { h: 0, key: k, m: 0, sel: Sel::Raw(0) };
+        }
         let single = |s: &str| s.chars().count() == 1;
         let first = |s: &str| s.chars().next().unwrap();
         let class = self.rng.weighted(&[26, 16, 10, 8, 6, 6, reph_weight, 4, 4, 6, 3, 2, 3, 3]);
@@ -783,6 +797,19 @@ impl<'a> Gen<'a> {
                     }
                 }
                 Some(l) => {
+                    if g.rng.pct(7) {
+                        // a key that composes nothing while idle (the vowel sign without an
+                        // independent form under auto vowel, a key without a value), then
+                        // most often a backspace while still idle
+                        let op = match l.by_value.get("\u{09C4}") {
+                            Some((k, altgr)) if g.rng.pct(70) => Op::Key { h: 0, key: *k, m: if *altgr { 2 } else { 0 }, sel: Sel::Raw(0) },
+                            _ => Op::Key { h: 0, key: g.env.keys.keys.iter().find(|k| k.name == "VC_KP_ENTER").map(|k| k.code).unwrap_or(0x0E1C), m: 0, sel: Sel::Raw(0) },
+                        };
+                        ops.push(op);
+                        if g.rng.pct(70) {
+                            ops.push(Op::Bs { h: 0, ctrl: g.rng.pct(25) });
+                        }
+                    }
                     for _ in 0..n.max(1) {
                         if g.rng.pct(22) {
                             // left-standing signs: the pending-sign state
@@ -856,6 +883,14 @@ impl<'a> Gen<'a> {
     }
 
     fn learn_text(&mut self) -> String {
+        if self.rng.pct(9) {
+            // an emoticon that is meta characters + letters ("=s", ";p", "xD"): its emoji is
+            // the one candidate that is not wrapped like the others
+            let with_letters: Vec<&&str> = self.env.emoticons.iter().filter(|e| crate::learn::split_text(e).is_some()).collect();
+            if !with_letters.is_empty() {
+                return self.rng.pick(&with_letters).to_string();
+            }
+        }
         let w = match self.rng.weighted(&[45, 20, 20, 15]) {
             0 => self.rng.pick(&self.env.dict_spellings).clone(),
             1 => self.rng.pick(&self.env.autocorrect_words).clone(),
